@@ -16,10 +16,14 @@ import SnowProofs.Props.C06
 namespace Snow.C12
 open Snow Num Snow.Flake Snow.FlakeLemmas Snow.FlakeRun Snow.FlakeStats Snow.FlakeStatsLemmas Snow.FlakeCex
 
-/-- Hypotheses under which the statistics of vial `i` are read off its trajectory:
-positive step, non-negative threshold, a positive initial amount of ice for a supercooled
-vial (a condition on the derived constants), and an admissible trajectory (ice fraction never
-negative, a vial that contains ice keeps some) — the last one is monitored on every real run. -/
+/-- Hypotheses under which the statistics of vial `i` are read off its trajectory: positive step,
+non-negative threshold, a positive initial amount of ice for a supercooled vial (a condition on the
+derived constants, discharged for every physically valid set by `hyp_jump_of_valid`), and ONE
+trajectory hypothesis about THIS vial only: its stored ice fraction, once positive, stays positive
+(`Adm`, equivalently `StaysIce (sigmaRow …)`, see `hyp_adm_of_row`).  The last one is monitored on
+every real run and follows from C06's conditional run invariant (`adm_of_trajAdm`); it cannot be
+dropped (C06 `side_condition_needed`).  That `σ = 0` before the first ice is NOT assumed — it follows
+from the model (`zero_before_first_ice`). -/
 structure Hyp (inp : Inputs ℝ) (kCN i : Nat) : Prop where
   vial : i < inp.nVials
   dt_pos : 0 < inp.p.dt
@@ -35,10 +39,35 @@ theorem tnuc_first_ice (h : Hyp inp kCN i) (hice : never 0 (sigmaRow inp kCN i) 
     (finalV inp kCN i).tNuc = (timeVec (NN inp) inp.p.dt)[crossIdx 0 (sigmaRow inp kCN i)]? ∧
     (finalV inp kCN i).tNuc = some (timeAt inp.p.dt (crossIdx 0 (sigmaRow inp kCN i))) := by
   obtain ⟨hk, hpos, hfirst⟩ := row_cross inp kCN i 0 hice
-  have := tnuc_of_first_ice (vtraj_chain inp kCN i h.vial) (fresh_start inp kCN i h.vial) h.adm
+  have := tnuc_of_first_ice (vtraj_chain inp kCN i h.vial) (fresh_start inp kCN i h.vial) h.jump h.adm
     _ (NN inp) hpos hfirst (le_of_lt hk) (by rw [vtraj_length]; unfold NN; omega)
   rw [nth_final, Nat.zero_add] at this
   exact ⟨by rw [timeVec_get _ _ h.dt_pos _ hk]; exact this.2.1, this.2.1⟩
+
+/-- **first ice, without any trajectory hypothesis**: if some stored column of vial `i` shows ice and
+`k₀` is the first one, the vial HAS a recorded nucleation time and it is at least `t[k₀]` (it is
+exactly `t[k₀]` when the vial keeps its ice, `tnuc_first_ice`; a vial that melted completely and
+nucleated again carries the later time). -/
+theorem tnuc_at_least_first_ice (hi : i < inp.nVials) (hdt : 0 < inp.p.dt) (hJ : JumpPos inp.p)
+    (hice : never 0 (sigmaRow inp kCN i) = false) :
+    ∃ τ, (finalV inp kCN i).tNuc = some τ ∧ timeAt inp.p.dt (crossIdx 0 (sigmaRow inp kCN i)) ≤ τ := by
+  obtain ⟨hk, hpos, hfirst⟩ := row_cross inp kCN i 0 hice
+  have hc := vtraj_chain inp kCN i hi
+  have h0 := fresh_start inp kCN i hi
+  have hlen : (vtraj inp kCN i).length = NN inp + 1 := vtraj_length inp kCN i
+  have hk0 : 0 < crossIdx 0 (sigmaRow inp kCN i) := by
+    rcases Nat.eq_zero_or_pos (crossIdx 0 (sigmaRow inp kCN i)) with h | h
+    · rw [h, h0.1] at hpos; exact absurd hpos (lt_irrefl _)
+    · exact h
+  obtain ⟨j, hj⟩ : ∃ j, crossIdx 0 (sigmaRow inp kCN i) = j + 1 := ⟨_, (Nat.succ_pred_eq_of_pos hk0).symm⟩
+  rw [hj] at hpos hfirst hk ⊢
+  have hz := zero_before_first_ice hc h0 hJ (j + 1) hfirst j (by omega) (by omega)
+  obtain ⟨q, _, _, ht, _⟩ := first_ice hc j (by omega) hz (ne_of_gt hpos)
+  obtain ⟨b, hb, hab⟩ := tnuc_mono hc h0 (le_of_lt hdt) (j + 1) (NN inp) (by omega) (by omega) _ ht
+  rw [nth_final] at hb
+  refine ⟨b, hb, ?_⟩
+  rw [Nat.zero_add, timeAt_succ] at hab
+  exact hab
 
 /-- **nucleation times lie on the grid**: `t_nucleation = (k+1)·dt` for an executed step `k < N`. -/
 theorem tnuc_grid (hi : i < inp.nVials) (τ : ℝ) (hτ : (finalV inp kCN i).tNuc = some τ) :
@@ -74,11 +103,11 @@ theorem Tnuc_step_temperature (h : Hyp inp kCN i) (hice : never 0 (sigmaRow inp 
   have hc := vtraj_chain inp kCN i h.vial
   have hlen : (vtraj inp kCN i).length = NN inp + 1 := vtraj_length inp kCN i
   obtain ⟨h0, _, _, _, _⟩ := tnuc_of_first_ice hc (fresh_start inp kCN i h.vial)
-    h.adm _ (NN inp) hpos hfirst (le_of_lt hk) (by omega)
+    h.jump h.adm _ (NN inp) hpos hfirst (le_of_lt hk) (by omega)
   obtain ⟨j, hj⟩ : ∃ j, crossIdx 0 (sigmaRow inp kCN i) = j + 1 := ⟨_, (Nat.succ_pred_eq_of_pos h0).symm⟩
   rw [hj] at hpos hfirst hk ⊢
   have hz : (nth (vtraj inp kCN i) j).sigma = 0 :=
-    le_antisymm (not_lt.mp (hfirst j (by omega))) (h.adm.nonneg j (by omega))
+    zero_before_first_ice hc (fresh_start inp kCN i h.vial) h.jump (j + 1) hfirst j (by omega) (by omega)
   obtain ⟨S, Tsh, hS, hT, hN⟩ := Tnuc_exact inp kCN i j h.vial (by omega) hz (ne_of_gt hpos)
   have keep := solid_keeps hc (j + 1) (NN inp) (by omega) (by omega)
     (fun j' h1 h2 => ne_of_gt (h.adm.keeps (j + 1) j' h1 (by omega) hpos))
@@ -127,8 +156,8 @@ theorem tsol_def (h : Hyp inp kCN i) :
     have hle : k0 ≤ k1 := by
       by_contra hcon
       exact hf0 k1 (by omega) hpos1
-    have t1 := tnuc_of_first_ice hc h0 h.adm k0 k1 hpos0 hf0 hle (by omega)
-    have tN := tnuc_of_first_ice hc h0 h.adm k0 (NN inp) hpos0 hf0 (by omega) (by omega)
+    have t1 := tnuc_of_first_ice hc h0 h.jump h.adm k0 k1 hpos0 hf0 hle (by omega)
+    have tN := tnuc_of_first_ice hc h0 h.jump h.adm k0 (NN inp) hpos0 hf0 (by omega) (by omega)
     have ts := tsol_set h0 hT k1 (NN inp) _ hgt hf1 t1.2.1 hk1 (by omega)
     rw [nth_final] at tN ts
     rw [Nat.zero_add] at ts
@@ -502,12 +531,6 @@ theorem adm_of_trajAdm {ph : Phys} (inp : Inputs ℝ) (kCN i : Nat) (hi : i < in
       rw [← runWith_traj, Array.getElem?_toList]; exact hS
     exact hadm j S hS' i v hv
   constructor
-  · intro j hj
-    obtain ⟨S, v, _, _, hn, ha⟩ := colAdm j (by omega)
-    rw [hn]
-    rcases ha with ha | ha
-    · rw [ha.1]
-    · exact le_of_lt ha.1
   · intro j m hjm hm hpos
     obtain ⟨Sj, vj, hSj, hvj, hnj, _⟩ := colAdm j (by omega)
     obtain ⟨Sm, vm, hSm, hvm, hnm, ham⟩ := colAdm m (by omega)
@@ -522,6 +545,80 @@ theorem adm_of_trajAdm {ph : Phys} (inp : Inputs ℝ) (kCN i : Nat) (hi : i < in
       hiff'.mpr ⟨t, ht, le_trans hle ((timeAt_mono inp.p.dt hdt j m).mpr hjm)⟩
     rw [hnm]
     exact (C06.adm_solid ham hne).1
+
+/-- the trajectory hypothesis as a condition on the vial's own stored row `X_sigma[i, :]` -/
+theorem hyp_adm_of_row (inp : Inputs ℝ) (kCN i : Nat) (h : StaysIce (sigmaRow inp kCN i)) :
+    Adm (vtraj inp kCN i) := adm_of_row inp kCN i h
+
+/-! ### the true statements next to the three refuted clauses -/
+
+/-- **K3, what does hold**: a recorded nucleation time is positive, at most `N·dt`, and it lies on the
+process grid (`≤ t[N−1]`) unless it is exactly `N·dt` (nucleation in the last step,
+`tnuc_last_step_counterexample`).  No trajectory hypothesis. -/
+theorem tnuc_within_process_weak (hi : i < inp.nVials) (hdt : 0 < inp.p.dt) (τ : ℝ)
+    (hτ : (finalV inp kCN i).tNuc = some τ) :
+    0 < τ ∧ τ ≤ timeAt inp.p.dt (NN inp) ∧
+      (τ = timeAt inp.p.dt (NN inp) ∨ (0 < NN inp ∧ τ ≤ timeAt inp.p.dt (NN inp - 1))) := by
+  obtain ⟨k, hk, e⟩ := tnuc_grid hi τ hτ
+  have e' : τ = timeAt inp.p.dt (k + 1) := by rw [e]; simp [timeAt]
+  refine ⟨by rw [e]; positivity, ?_, ?_⟩
+  · rw [e']; exact (timeAt_mono inp.p.dt hdt _ _).mpr (by omega)
+  · rcases Nat.lt_or_ge (k + 1) (NN inp) with h | h
+    · right; exact ⟨by omega, by rw [e']; exact (timeAt_mono inp.p.dt hdt _ _).mpr (by omega)⟩
+    · left; rw [e']; congr 1; omega
+
+/-- **K2, what does hold — as an equation**: the states-derived nucleation temperature `a` and the
+recorded one `b` satisfy `a = b − q/hl·dt` with `q` the vial's actual net heat flow in the
+nucleating step `k₀−1` (so they differ by EXACTLY that step's sensible update, and are equal iff
+`q = 0`). -/
+theorem fromStates_Tnuc_eq_minus_update (h : Hyp inp kCN i) (hice : never 0 (sigmaRow inp kCN i) = false) :
+    ∃ (S : State ℝ) (Tsh a b : ℝ),
+      (runWith inp kCN).traj[crossIdx 0 (sigmaRow inp kCN i) - 1]? = some S ∧
+      (runWith inp kCN).Tshelf[crossIdx 0 (sigmaRow inp kCN i) - 1]? = some Tsh ∧
+      TNucStates [true] [tempRow inp kCN i] [sigmaRow inp kCN i] = [some a] ∧
+      (finalV inp kCN i).TNuc = some b ∧
+      a = b - heatFlow inp.p (temps S) Tsh Tsh i / inp.p.c.hl * inp.p.dt := by
+  obtain ⟨S, Tsh, Tpre, hS, hT, hA, hB⟩ := fromStates_Tnuc_within_one_step h hice
+  exact ⟨S, Tsh, Tpre, _, hS, hT, hA, hB, by ring⟩
+
+/-- **K4, what does hold (1)**: on the stats path with the solidification threshold (`> 0`) the counter
+IS `#{i | t_solidification[i] ≤ t}` — the solidification DURATION compared with the clock time. -/
+theorem counter_sol_stats_is_duration_count (q solThr : ℝ) (hthr : 0 < solThr) (t : List ℝ)
+    (Xs : List (List ℝ)) (sT sS : List (Option ℝ)) :
+    sigmaCounter true [q] none solThr false t Xs sT sS = .ok [countLe sS q] := by
+  simp [sigmaCounter, sigmaCount1, hthr]
+
+/-- **K4, what does hold (2)**: that count is never BELOW the number of vials solidified by clock
+time `t` (`t_nucleation + t_solidification ≤ t`, the time of the threshold crossing, see
+`tnuc_plus_tsol_is_crossing_time`): the stats counter over-counts, it never under-counts. -/
+theorem counter_sol_stats_overcounts (hdt : 0 < inp.p.dt) (q : ℝ) :
+    (List.range inp.nVials).countP (fun i =>
+        match (finalV inp kCN i).tNuc, (finalV inp kCN i).tSol with
+        | some τ, some d => decide (τ + d ≤ q)
+        | _, _ => false)
+      ≤ countLe ((List.range inp.nVials).map fun i => (finalV inp kCN i).tSol) q := by
+  simp only [countLe, List.countP_map]
+  apply List.countP_mono_left
+  intro i hi hp
+  have hi' : i < inp.nVials := List.mem_range.mp hi
+  cases hτ : (finalV inp kCN i).tNuc with
+  | none => simp [hτ] at hp
+  | some τ =>
+    cases hd : (finalV inp kCN i).tSol with
+    | none => simp [hτ, hd] at hp
+    | some d =>
+      simp only [hτ, hd, decide_eq_true_eq] at hp
+      have := (tnuc_within_process_weak hi' hdt τ hτ).1
+      simp only [Function.comp, hd, decide_eq_true_eq]
+      linarith
+
+/-- the clock time at which vial `i` crosses the threshold is `t_nucleation + t_solidification` -/
+theorem tnuc_plus_tsol_is_crossing_time (h : Hyp inp kCN i)
+    (hthr : never inp.p.threshold (sigmaRow inp kCN i) = false) :
+    ∃ τ d, (finalV inp kCN i).tNuc = some τ ∧ (finalV inp kCN i).tSol = some d ∧
+      τ + d = timeAt inp.p.dt (crossIdx inp.p.threshold (sigmaRow inp kCN i)) := by
+  obtain ⟨τ, hτ, hs, _, _⟩ := (tsol_def h).1 hthr
+  exact ⟨τ, _, hτ, hs, by ring⟩
 
 /-! ### non-vacuity -/
 
